@@ -49,6 +49,6 @@ def tasks(tier, seed=0):
     # "SolverVSA never excludes a value that exists" and the approximate side of SolverHybrid: LightFrontend over the VSA backend's contract
     # (the same obligations as under C24)
     from vf.contracts import vsaops
-    out += [task("vf.contracts.vsaops", "ob_light", f"light.{m}/sound", ["C24", "C13"], method=m, tier=tier) for m in vsaops.LIGHT_METHODS]
+    out += [task("vf.contracts.vsaops", "ob_light", f"light.{m}/sound", ["C24", "C13"], replay="vf.contracts.vsaops:replay_light", method=m, tier=tier) for m in vsaops.LIGHT_METHODS]
     out.append(task("vf.contracts.canaries", "ob_canaries", "harness.canaries/wrong-methods-are-noticed", ["C03", "C11", "C12", "C13", "C15"], tier=tier))
     return out + _rtc.rtc_tasks("C13", tier, seed)
